@@ -874,6 +874,7 @@ def run(ctx: Ctx) -> None:
 
 # ---------------------------------------------------------------------------
 WITNESSES = [
+    {"name": "seeded-C17-12", "file": "core/mdo_functions/discipline_adapter.py", "old": "from numpy import array\nfrom numpy import empty\nfrom numpy import ndarray\n\nfrom gemseo.core.execution_status import ExecutionStatus\nfrom gemseo.core.mdo_functions.mdo_function import MDOFunction\nfrom gemseo.utils.compatibility.scipy import get_row\nfrom gemseo.utils.compatibility.scipy import sparse_classes\nfrom gemseo.utils.constants import READ_ONLY_EMPTY_DICT\n\nif TYPE_CHECKING:\n    from collections.abc import MutableMapping\n    from collections.abc import Sequence\n\n    from gemseo.core.discipline import Discipline\n    from gemseo.core.grammars.defaults import Defaults\n    from gemseo.typing import JacobianData\n    from gemseo.typing import NumberArray\n    from gemseo.typing import StrKeyMapping\n\n\nclass DisciplineAdapter(MDOFunction):\n    \"\"\"An :class:`.MDOFunction` executing a discipline for some inputs and outputs.\"\"\"\n\n    __is_linear: bool\n    \"\"\"Whether the function is linear.\"\"\"\n\n    __input_dimension: int | None\n    \"\"\"The input variable dimension, needed for linear candidates.\"\"\"\n\n    differentiated_input_names_substitute: Sequence[str]\n    \"\"\"The names of the inputs with respect to which to differentiate the functions.\n\n    If empty, consider the variables of their input space.\n    \"\"\"\n\n    def __init__(\n        self,\n        input_names: Sequence[str],\n        output_names: Sequence[str],\n        default_input_data: Defaults,\n        discipline: Discipline,\n        names_to_sizes: MutableMapping[str, int] = READ_ONLY_EMPTY_DICT,\n        differentiated_input_names_substitute: Sequence[str] = (),\n    ) -> None:\n        \"\"\"\n        Args:\n            input_names: The names of the inputs.\n            output_names: The names of the outputs.\n            default_input_data: The default input values\n                to overload the ones of the discipline\n                at each evaluation of the outputs with :meth:`._fun`\n                or their derivatives with :meth:`._jac`.\n                If empty, do not overload them.\n            discipline: The discipline to be adapted.\n            names_to_sizes: The sizes of the input variables.\n                If empty, determine them from the default inputs and local data\n                of the discipline :class:`.Discipline`.\n            differentiated_input_names_substitute: The names of the inputs\n                with respect to which to differentiate the functions.\n                If empty, consider the variables of their input space.\n        \"\"\"  # noqa: D205, D212, D415\n        super().__init__(\n            self._func_to_wrap,\n            jac=self._jac_to_wrap,\n            name=\"_\".join(output_names),\n            input_names=input_names,\n            output_names=output_names,\n        )\n        self.differentiated_input_names_substitute = (\n            differentiated_input_names_substitute or input_names\n        )\n        self.__default_inputs = default_input_data\n        self.__input_size = 0\n        self.__differentiated_input_size = 0\n        self.__output_names_to_slices = {}\n        self.__jacobian = array(())\n        self.__discipline = discipline\n        self.__input_names_to_slices = {}\n        self.__input_names_to_sizes = names_to_sizes or {}\n        self.__differentiated_input_names_to_slices = {}\n        input_names = set(self.input_names)\n        self.__is_linear = self.__discipline.io.have_linear_relationships(\n            input_names, output_names\n        )\n        self.__input_dimension = self.__compute_input_dimension(default_input_data)\n        self.__convert_array_to_data = (\n            discipline.io.input_grammar.data_converter.convert_array_to_data\n        )\n\n    @property\n    def is_linear(self) -> bool:  # noqa: D102\n        return self.__is_linear\n\n    @property\n    def input_dimension(self) -> int | None:  # noqa: D102\n        return self.__input_dimension\n\n    def __compute_input_dimension(\n        self,\n        default_input_data: Defaults,\n    ) -> int | None:\n        \"\"\"Compute the input dimension.\n\n        Args:\n            default_input_data: : The default input values\n                to overload the ones of the discipline\n                at each evaluation of the outputs with :meth:`._fun`\n                or their derivatives with :meth:`._jac`.\n                If ``None``, do not overload them.\n\n        Returns:\n            The input dimension.\n        \"\"\"\n        get_value_size = (\n            self.__discipline.io.input_grammar.data_converter.get_value_size\n        )\n\n        if default_input_data and all(\n            name in default_input_data for name in self.input_names\n        ):\n            return sum(\n                get_value_size(input_name, default_input_data[input_name])\n                for input_name in self.input_names\n            )\n\n        if len(self.__input_names_to_sizes) > 0:\n            return sum(self.__input_names_to_sizes.values())\n\n        default_input_data = self.__discipline.io.input_grammar.defaults\n\n        if all(name in default_input_data for name in self.input_names):\n            return sum(\n                get_value_size(input_name, default_input_data[input_name])\n                for input_name in self.input_names\n            )\n\n        # TODO: document what None means. We could use 0 instead.\n        return None\n\n    def __create_output_names_to_slices(self, jacobians: JacobianData) -> int:\n        \"\"\"Compute the indices of the input variables in the Jacobian array.\n\n        Args:\n            jacobians: The Jacobians data used to compute the slices.\n\n        Returns:\n            The size of the inputs.\n        \"\"\"\n        self.__output_names_to_slices = output_names_to_slices = {}\n        start = 0\n        output_size = 0\n        for output_name in self.output_names:\n            input_name = next(iter(jacobians[output_name]))\n            output_size += jacobians[output_name][input_name].shape[0]\n            output_names_to_slices[output_name] = slice(start, output_size)\n            start = output_size\n        return output_size\n\n    def _func_to_wrap(self, x_vect: NumberArray) -> complex | NumberArray:\n        \"\"\"Compute an output vector from an input one.\n\n        Args:\n            x_vect: The input vector.\n\n        Returns:\n            The output vector or a scalar if the vector has only one component.\n        \"\"\"\n        self.__discipline.execution_status.value = ExecutionStatus.Status.DONE\n        input_data = self.__create_discipline_input_data(x_vect)\n        output_data = self.__discipline.execute(input_data)\n        return self._convert_output_data_to_array(output_data)\n\n    def _convert_output_data_to_array(\n        self, output_data: StrKeyMapping\n    ) -> complex | NumberArray:\n        \"\"\"Convert the discipline's output data to array/scalar.\n\n        Args:\n            output_data: The discipline's output data.\n\n        Returns:\n            The vector or scalar of output data.\n        \"\"\"\n        output_vector = (\n            self.__discipline.io.output_grammar.data_converter.convert_data_to_array(\n                self.output_names, output_data\n            )\n        )\n\n        if output_vector.size == 1:  # The function is scalar.\n            return output_vector[0]\n\n        return output_vector\n\n    def _jac_to_wrap(self, x_vect: NumberArray) -> NumberArray:\n        \"\"\"Compute the Jacobian value from an input vector.\n\n        Args:\n            x_vect: The input vector.\n\n        Returns:\n            The Jacobian value.\n        \"\"\"\n        input_data = self.__create_discipline_input_data(x_vect)\n        jacobians = self.__discipline.linearize(input_data)\n\n        return self._convert_jacobian_to_array(jacobians)\n\n    def _convert_jacobian_to_array(self, jacobians: JacobianData) -> NumberArray:\n        \"\"\"Convert the discipline's Jacobians to array.\n\n        Args:\n            jacobians: The discipline's Jacobians data.\n\n        Returns:\n            The aggregated Jacobian as a NumPy array.\n        \"\"\"\n        if len(self.__jacobian) == 0:\n            output_size = self.__create_output_names_to_slices(jacobians)\n            if output_size == 1:\n                shape = self.__differentiated_input_size\n            else:\n                shape = (output_size, self.__differentiated_input_size)\n\n            self.__jacobian = empty(shape)\n\n        if self.__jacobian.ndim == 1 or self.__jacobian.shape[0] == 1:\n            output_name = self.output_names[0]\n            jac_output = jacobians[output_name]\n            for input_name in self.differentiated_input_names_substitute:\n                input_slice = self.__differentiated_input_names_to_slices[input_name]\n                jac = jac_output[input_name]\n                # TODO: This precaution is meant to disappear when sparse 1-D array will\n                # be available. This is also mandatory since self.__jacobian is\n                # initialized as a dense array.\n                if isinstance(jac, sparse_classes):\n                    first_row = get_row(jac, 0).todense().flatten()\n                else:\n                    first_row = jac[0, :]\n\n                self.__jacobian[input_slice] = first_row\n        else:\n            for output_name in self.output_names:\n                output_slice = self.__output_names_to_slices[output_name]\n                jac_output = jacobians[output_name]\n                for input_name in self.differentiated_input_names_substitute:\n                    input_slice = self.__differentiated_input_names_to_slices[\n                        input_name\n                    ]\n                    jac = jac_output[input_name]\n                    # TODO: This is mandatory since self.__jacobian is initialized as a\n                    # dense array. Performance improvement could be obtained if one is\n                    # able to infer the type of jac.\n                    if isinstance(jac, sparse_classes):\n                        jac = jac.toarray()\n", "new": "from numpy import array\nfrom numpy import ndarray\nfrom numpy import zeros\n\nfrom gemseo.core.execution_status import ExecutionStatus\nfrom gemseo.core.mdo_functions.mdo_function import MDOFunction\nfrom gemseo.utils.compatibility.scipy import get_row\nfrom gemseo.utils.compatibility.scipy import sparse_classes\nfrom gemseo.utils.constants import READ_ONLY_EMPTY_DICT\n\nif TYPE_CHECKING:\n    from collections.abc import MutableMapping\n    from collections.abc import Sequence\n\n    from gemseo.core.discipline import Discipline\n    from gemseo.core.grammars.defaults import Defaults\n    from gemseo.typing import JacobianData\n    from gemseo.typing import NumberArray\n    from gemseo.typing import StrKeyMapping\n\n\nclass DisciplineAdapter(MDOFunction):\n    \"\"\"An :class:`.MDOFunction` executing a discipline for some inputs and outputs.\"\"\"\n\n    __is_linear: bool\n    \"\"\"Whether the function is linear.\"\"\"\n\n    __input_dimension: int | None\n    \"\"\"The input variable dimension, needed for linear candidates.\"\"\"\n\n    differentiated_input_names_substitute: Sequence[str]\n    \"\"\"The names of the inputs with respect to which to differentiate the functions.\n\n    If empty, consider the variables of their input space.\n    \"\"\"\n\n    def __init__(\n        self,\n        input_names: Sequence[str],\n        output_names: Sequence[str],\n        default_input_data: Defaults,\n        discipline: Discipline,\n        names_to_sizes: MutableMapping[str, int] = READ_ONLY_EMPTY_DICT,\n        differentiated_input_names_substitute: Sequence[str] = (),\n    ) -> None:\n        \"\"\"\n        Args:\n            input_names: The names of the inputs.\n            output_names: The names of the outputs.\n            default_input_data: The default input values\n                to overload the ones of the discipline\n                at each evaluation of the outputs with :meth:`._fun`\n                or their derivatives with :meth:`._jac`.\n                If empty, do not overload them.\n            discipline: The discipline to be adapted.\n            names_to_sizes: The sizes of the input variables.\n                If empty, determine them from the default inputs and local data\n                of the discipline :class:`.Discipline`.\n            differentiated_input_names_substitute: The names of the inputs\n                with respect to which to differentiate the functions.\n                If empty, consider the variables of their input space.\n        \"\"\"  # noqa: D205, D212, D415\n        super().__init__(\n            self._func_to_wrap,\n            jac=self._jac_to_wrap,\n            name=\"_\".join(output_names),\n            input_names=input_names,\n            output_names=output_names,\n        )\n        self.differentiated_input_names_substitute = (\n            differentiated_input_names_substitute or input_names\n        )\n        self.__default_inputs = default_input_data\n        self.__input_size = 0\n        self.__differentiated_input_size = 0\n        self.__output_names_to_slices = {}\n        self.__jacobian = array(())\n        self.__discipline = discipline\n        self.__input_names_to_slices = {}\n        self.__input_names_to_sizes = names_to_sizes or {}\n        self.__differentiated_input_names_to_slices = {}\n        input_names = set(self.input_names)\n        self.__is_linear = self.__discipline.io.have_linear_relationships(\n            input_names, output_names\n        )\n        self.__input_dimension = self.__compute_input_dimension(default_input_data)\n        self.__convert_array_to_data = (\n            discipline.io.input_grammar.data_converter.convert_array_to_data\n        )\n\n    @property\n    def is_linear(self) -> bool:  # noqa: D102\n        return self.__is_linear\n\n    @property\n    def input_dimension(self) -> int | None:  # noqa: D102\n        return self.__input_dimension\n\n    def __compute_input_dimension(\n        self,\n        default_input_data: Defaults,\n    ) -> int | None:\n        \"\"\"Compute the input dimension.\n\n        Args:\n            default_input_data: : The default input values\n                to overload the ones of the discipline\n                at each evaluation of the outputs with :meth:`._fun`\n                or their derivatives with :meth:`._jac`.\n                If ``None``, do not overload them.\n\n        Returns:\n            The input dimension.\n        \"\"\"\n        get_value_size = (\n            self.__discipline.io.input_grammar.data_converter.get_value_size\n        )\n\n        if default_input_data and all(\n            name in default_input_data for name in self.input_names\n        ):\n            return sum(\n                get_value_size(input_name, default_input_data[input_name])\n                for input_name in self.input_names\n            )\n\n        if len(self.__input_names_to_sizes) > 0:\n            return sum(self.__input_names_to_sizes.values())\n\n        default_input_data = self.__discipline.io.input_grammar.defaults\n\n        if all(name in default_input_data for name in self.input_names):\n            return sum(\n                get_value_size(input_name, default_input_data[input_name])\n                for input_name in self.input_names\n            )\n\n        # TODO: document what None means. We could use 0 instead.\n        return None\n\n    def __create_output_names_to_slices(self, jacobians: JacobianData) -> int:\n        \"\"\"Compute the indices of the input variables in the Jacobian array.\n\n        Args:\n            jacobians: The Jacobians data used to compute the slices.\n\n        Returns:\n            The size of the inputs.\n        \"\"\"\n        self.__output_names_to_slices = output_names_to_slices = {}\n        start = 0\n        output_size = 0\n        for output_name in self.output_names:\n            input_name = next(iter(jacobians[output_name]))\n            output_size += jacobians[output_name][input_name].shape[0]\n            output_names_to_slices[output_name] = slice(start, output_size)\n            start = output_size\n        return output_size\n\n    def _func_to_wrap(self, x_vect: NumberArray) -> complex | NumberArray:\n        \"\"\"Compute an output vector from an input one.\n\n        Args:\n            x_vect: The input vector.\n\n        Returns:\n            The output vector or a scalar if the vector has only one component.\n        \"\"\"\n        self.__discipline.execution_status.value = ExecutionStatus.Status.DONE\n        input_data = self.__create_discipline_input_data(x_vect)\n        output_data = self.__discipline.execute(input_data)\n        return self._convert_output_data_to_array(output_data)\n\n    def _convert_output_data_to_array(\n        self, output_data: StrKeyMapping\n    ) -> complex | NumberArray:\n        \"\"\"Convert the discipline's output data to array/scalar.\n\n        Args:\n            output_data: The discipline's output data.\n\n        Returns:\n            The vector or scalar of output data.\n        \"\"\"\n        output_vector = (\n            self.__discipline.io.output_grammar.data_converter.convert_data_to_array(\n                self.output_names, output_data\n            )\n        )\n\n        if output_vector.size == 1:  # The function is scalar.\n            return output_vector[0]\n\n        return output_vector\n\n    def _jac_to_wrap(self, x_vect: NumberArray) -> NumberArray:\n        \"\"\"Compute the Jacobian value from an input vector.\n\n        Args:\n            x_vect: The input vector.\n\n        Returns:\n            The Jacobian value.\n        \"\"\"\n        input_data = self.__create_discipline_input_data(x_vect)\n        jacobians = self.__discipline.linearize(input_data)\n\n        return self._convert_jacobian_to_array(jacobians)\n\n    def _convert_jacobian_to_array(self, jacobians: JacobianData) -> NumberArray:\n        \"\"\"Convert the discipline's Jacobians to array.\n\n        Args:\n            jacobians: The discipline's Jacobians data.\n\n        Returns:\n            The aggregated Jacobian as a NumPy array.\n        \"\"\"\n        if len(self.__jacobian) == 0:\n            output_size = self.__create_output_names_to_slices(jacobians)\n            if output_size == 1:\n                shape = self.__differentiated_input_size\n            else:\n                shape = (output_size, self.__differentiated_input_size)\n\n            self.__jacobian = zeros(shape)\n\n        if self.__jacobian.ndim == 1 or self.__jacobian.shape[0] == 1:\n            output_name = self.output_names[0]\n            jac_output = jacobians[output_name]\n            for input_name in self.differentiated_input_names_substitute:\n                input_slice = self.__differentiated_input_names_to_slices[input_name]\n                jac = jac_output[input_name]\n                # TODO: This precaution is meant to disappear when sparse 1-D array will\n                # be available. This is also mandatory since self.__jacobian is\n                # initialized as a dense array.\n                if isinstance(jac, sparse_classes):\n                    if jac.nnz == 0:\n                        # Nothing to densify: the block is already filled with zeros.\n                        continue\n                    first_row = get_row(jac, 0).todense().flatten()\n                else:\n                    first_row = jac[0, :]\n\n                self.__jacobian[input_slice] = first_row\n        else:\n            for output_name in self.output_names:\n                output_slice = self.__output_names_to_slices[output_name]\n                jac_output = jacobians[output_name]\n                for input_name in self.differentiated_input_names_substitute:\n                    input_slice = self.__differentiated_input_names_to_slices[\n                        input_name\n                    ]\n                    jac = jac_output[input_name]\n                    # TODO: This is mandatory since self.__jacobian is initialized as a\n                    # dense array. Performance improvement could be obtained if one is\n                    # able to infer the type of jac.\n                    if isinstance(jac, sparse_classes):\n                        if jac.nnz == 0:\n                            # Nothing to densify:\n                            # the block is already filled with zeros.\n                            continue\n                        jac = jac.toarray()\n", "expect": "17.9", "note": "DisciplineAdapter skips empty sparse Jacobian blocks (nnz == 0) when filling its"},
     {"name": "seeded-C17-10", "file": "formulations/base_formulation.py", "old": "        \"\"\"Remove the sub scenarios design variables from the design space.\"\"\"\n        for scenario in self.get_sub_scenarios():\n            for var in scenario.formulation.design_space:\n                if var in self.optimization_problem.design_space:\n                    self.optimization_problem.design_space.remove_variable(var)\n\n", "new": "        \"\"\"Remove the sub scenarios design variables from the design space.\"\"\"\n        design_space = self.optimization_problem.design_space\n        sub_design_spaces = [\n            scenario.formulation.design_space for scenario in self.get_sub_scenarios()\n        ]\n        for name in design_space.variable_names:\n            if all(name in sub_design_space for sub_design_space in sub_design_spaces):\n                design_space.remove_variable(name)\n\n", "expect": "17.8", "note": "_remove_sub_scenario_dv_from_ds removes only the variables shared by all the sub"},
     {"name": "unmask-in-the-order-of-all-names", "file": BF, "old": "            for key in masking_data_names:\n                i_min, i_max, n_x = indices[key]\n                x_unmask[..., i_min:i_max] = x_masked[..., i_x : i_x + n_x]\n                i_x += n_x", "new": "            for key in all_data_names:\n                if key in masking_data_names:\n                    i_min, i_max, n_x = indices[key]\n                    x_unmask[..., i_min:i_max] = x_masked[..., i_x : i_x + n_x]\n                    i_x += n_x", "expect": "17.4"},
     {"name": "equilibrium-at-discipline-defaults", "file": IDF, "old": "        ).execute(current_x)", "new": "        ).execute()", "expect": "17.5"},
